@@ -412,6 +412,13 @@ class C15(PropBase):
             c = {"op": "run", "kind": "files:walk-dangling-symlink", "cfg": {}, "walk": True, "want": ["txns", "identity"],
                  "files": [{"name": names[0], "text": good[0]}, {"name": names[1], "symlink": "no/such/target.txn", "text": ""}]}
             out.append(c)
+        # every directory below the journal directory is walked, dot-named ones included: a faulty file there fails the
+        # load, a good one contributes its transactions
+        for d in (".imported", "2024/.attic/02", ".git-annex/x"):
+            out.append({"op": "run", "kind": "files:walk-dot-dir", "cfg": {}, "walk": True, "want": ["txns", "identity"],
+                        "files": [{"name": "a.txn", "text": good[0]}, {"name": d + "/b.txn", "text": bad[0] if bad else "garbage\n"}]})
+            out.append({"op": "run", "kind": "files:walk-dot-dir", "cfg": {}, "walk": True, "want": ["txns", "identity"], "expect_n": 2,
+                        "files": [{"name": "a.txn", "text": good[0]}, {"name": d + "/b.txn", "text": good[1]}]})
         out.append({"op": "run", "kind": "files:walk-good", "cfg": {}, "walk": True, "want": ["txns", "identity"], "expect_n": 2,
                     "files": [{"name": "a.txn", "text": good[0]}, {"name": "sub/b.txn", "text": good[1]},
                               {"name": "sub/ignored.txt", "text": "not a journal"}]})
